@@ -11,7 +11,7 @@ RULE = ('events __invert__/__and__/__or__/__xor__ (and reflected forms with an i
         'n_word-bit pattern is NOT/AND/OR/XOR of the operands\' patterns (code mod 2^n_word; masks reduced mod 2^n_word), x unchanged; operands of '
         'different word lengths must raise; the laws ~~x==x, ~x==-x-LSB (signed), De Morgan are evaluated through the library. Key = (op, signedness '
         'pair, y kind, word class, top bits of the two patterns); non-trivial = at least one operand pattern has the top bit set.')
-DECIDING_OPS = ['__invert__', '__and__', '__or__', '__xor__', ('__rand__', '__ror__', '__rxor__'), ('__iand__', '__ior__', '__ixor__')]
+DECIDING_OPS = ['__invert__', '__and__', '__or__', '__xor__', ('__rand__', '__ror__', '__rxor__'), ('__iand__', '__ior__', '__ixor__'), '__array_ufunc__']
 ANCHORS = ['objects.Fxp.__invert__', 'objects.Fxp.__and__', 'objects.Fxp.__or__', 'objects.Fxp.__xor__', 'utils.binary_invert', 'utils.binary_and',
            'utils.binary_or', 'utils.binary_xor', 'utils.twos_complement_repr']
 EXHAUSTIVE = {'quick': 'all code pairs for n_word<=4, every signedness combination, n_frac in {0, n_word//2, n_word}; y as Fxp and as integer mask',
@@ -26,10 +26,41 @@ def make_judges(ctx):
     mon = ctx.mon
     Fxp = mon.Fxp
 
+    UF = {np.bitwise_and: 'and', np.bitwise_or: 'or', np.bitwise_xor: 'xor', np.invert: 'not'}
+
+    def snap_of(ev, obj):
+        for o, p in zip(ev.operands, ev.pre):
+            if o is obj:
+                return p
+        return None
+
     def bit_judge(ev):
-        if ev.kind != 'method' or (ev.op != '__invert__' and ev.op not in OPS):
+        # decode the event: (operation, x = the fixed-point operand whose word is acted on, y = the other operand, route)
+        if ev.kind != 'method':
             return
-        x = ev.pre[0] if ev.pre else None
+        if ev.op == '__invert__':
+            op, xobj, y, route = 'not', ev.receiver, None, 'operator'
+        elif ev.op in OPS:
+            op, xobj, y = OPS[ev.op], ev.receiver, (ev.args[0] if ev.args else None)
+            route = 'reflected' if ev.op.startswith('__r') else ('inplace' if ev.op.startswith('__i') and ev.op != '__invert__' else 'operator')
+        elif ev.op == '__array_ufunc__' and len(ev.args) >= 3 and ev.args[0] in UF and ev.args[1] == '__call__' and not ev.kwargs:
+            # np.bitwise_and(x, y), np.invert(x), or a NumPy integer / array mask on the left of the operator
+            op = UF[ev.args[0]]
+            ins = ev.args[2:]
+            if op == 'not':
+                xobj, y = ins[0], None
+            elif len(ins) != 2:
+                return
+            elif isinstance(ins[0], Fxp):
+                xobj, y = ins[0], ins[1]
+            else:
+                xobj, y = ins[1], ins[0]
+            route = 'numpy'
+        else:
+            return
+        if not isinstance(xobj, Fxp):
+            return
+        x = snap_of(ev, xobj)
         if x is None or x.is_complex or x.scaled or not (1 <= x.n_word <= 256):
             ctx.skip('bitwise:operand outside domain')
             return
@@ -39,16 +70,13 @@ def make_judges(ctx):
         if any((not isinstance(k, int)) or k < lo or k > hi for k in x.codes):
             ctx.skip('bitwise:operand holds an out-of-range code (C02)')
             return
-        if ev.op == '__invert__':
-            op, ykind, ypat, sy = 'not', '-', None, ''
-        else:
-            op = OPS[ev.op]
-            y = ev.args[0] if ev.args else None
+        xa = np.empty(len(x.codes), dtype=object)
+        xa[:] = [k % m for k in x.codes]
+        xa = xa.reshape(x.shape)
+        ya, ykind, sy = None, '-', ''
+        if op != 'not':
             if isinstance(y, Fxp):
-                ys = None
-                for o, p in zip(ev.operands, ev.pre):
-                    if o is y:
-                        ys = p
+                ys = snap_of(ev, y)
                 if ys is None or ys.is_complex:
                     ctx.skip('bitwise:y not usable')
                     return
@@ -58,57 +86,76 @@ def make_judges(ctx):
                     ctx.judged(('mismatch', op, x.signed, ys.signed), True, None)
                     ctx.floor_hit(('mismatch',))
                     return
-                if len(ys.codes) != 1 or len(x.codes) != 1:
-                    ctx.skip('bitwise:array operands (scalar property)')
-                    return
-                ypat = [ys.codes[0] % m]
+                ya = np.empty(len(ys.codes), dtype=object)
+                ya[:] = [k % m for k in ys.codes]
+                ya = ya.reshape(ys.shape)
                 ykind, sy = 'Fxp', 's' if ys.signed else 'u'
             elif isinstance(y, (int, np.integer)) and not isinstance(y, bool):
-                if len(x.codes) != 1:
-                    ctx.skip('bitwise:array operands (scalar property)')
-                    return
-                ypat = [int(y) % m]
-                ykind = ('-mask' if y < 0 else '+mask') + ('.r' if ev.op.startswith('__r') else '')
-                sy = ''
+                ya = np.array(int(y) % m, dtype=object)
+                ykind = ('-mask' if y < 0 else '+mask') + ('.np' if isinstance(y, np.integer) else '')
+            elif isinstance(y, (list, np.ndarray)) and np.asarray(y).size > 0 and np.asarray(y).dtype.kind in 'iuO' \
+                    and all(isinstance(v, (int, np.integer)) and not isinstance(v, bool) for v in np.asarray(y, dtype=object).ravel().tolist()):
+                yo = np.asarray(y, dtype=object)
+                ya = np.empty(yo.size, dtype=object)
+                ya[:] = [int(v) % m for v in yo.ravel().tolist()]
+                ya = ya.reshape(yo.shape)
+                ykind = 'masks'
             else:
                 ctx.skip('bitwise:y of unsupported type')
                 return
+            try:
+                xb, yb = np.broadcast_arrays(xa, ya)
+            except ValueError:
+                ctx.skip('bitwise:shapes do not broadcast')
+                return
+        else:
+            xb, yb = xa, None
         if ev.exc is not None:
-            ctx.violation('raises', '%s on %s raised %s: %s' % (ev.op, R.dtype_fxp(*x.fmt()), type(ev.exc).__name__, str(ev.exc)[:120]), ev, key='bitwise.raises')
+            ctx.violation('raises', '%s (%s, y=%s) on %s raised %s: %s' % (ev.op, route, ykind, R.dtype_fxp(*x.fmt()), type(ev.exc).__name__, str(ev.exc)[:120]), ev, key='bitwise.raises')
             return
         res = ev.result_snap
         if res is None:
             ctx.violation('result_type', '%s returned %s' % (ev.op, type(ev.result).__name__), ev)
             return
         if res.fmt() != x.fmt():
-            ctx.violation('format', '%s of %s returned format %s' % (ev.op, R.dtype_fxp(*x.fmt()), R.dtype_fxp(*res.fmt())), ev)
+            ctx.violation('format', '%s (%s, y=%s) of %s returned format %s' % (ev.op, route, ykind, R.dtype_fxp(*x.fmt()), R.dtype_fxp(*res.fmt())), ev)
             return
         exp = []
-        for i, k in enumerate(x.codes):
-            p = k % m
+        xs_ = xb.ravel().tolist()
+        ys_ = yb.ravel().tolist() if yb is not None else [None] * len(xs_)
+        for pp, q in zip(xs_, ys_):
             if op == 'not':
-                r = (~p) % m
+                r = (~pp) % m
             else:
-                q = ypat[0]
-                r = (p & q) if op == 'and' else ((p | q) if op == 'or' else (p ^ q))
+                r = (pp & q) if op == 'and' else ((pp | q) if op == 'or' else (pp ^ q))
             exp.append(R.from_pattern(r, x.signed, n))
-        if res.codes != exp or tuple(res.shape) != tuple(x.shape):
-            ctx.violation('pattern', '%s %s on %s code %s%s: result code %s, bit pattern operation gives %s' % (
-                op, ykind, R.dtype_fxp(*x.fmt()), x.codes[0], '' if ypat is None else ' with pattern %d' % ypat[0], [str(k) for k in res.codes[:3]], [str(k) for k in exp[:3]]), ev)
-        top = (any((k % m) >> (n - 1) for k in x.codes), bool(ypat and (ypat[0] >> (n - 1))))
+        if res.codes != exp or tuple(res.shape) != tuple(xb.shape):
+            ctx.violation('pattern', '%s %s (%s) on %s codes %s%s: result codes %s (shape %r), bit pattern operation gives %s (shape %r)' % (
+                op, ykind, route, R.dtype_fxp(*x.fmt()), x.codes[:3], '' if yb is None else ' with patterns %s' % ys_[:3], [str(k) for k in res.codes[:3]], res.shape,
+                [str(k) for k in exp[:3]], tuple(xb.shape)), ev)
+        top = (any(pp >> (n - 1) for pp in xs_), bool(yb is not None and any(q >> (n - 1) for q in ys_)))
         sample = None
-        if ctx.want_sample() and any(top) and len(x.codes) == 1:
-            sample = {'op': ev.op, 'x': R.dtype_fxp(*x.fmt()), 'x_bits': R.bin_image(x.codes[0], n), 'y_bits': None if ypat is None else format(ypat[0], '0%db' % n),
+        if ctx.want_sample() and any(top) and len(x.codes) == 1 and len(exp) == 1:
+            sample = {'op': ev.op, 'x': R.dtype_fxp(*x.fmt()), 'x_bits': R.bin_image(x.codes[0], n), 'y_bits': None if yb is None else format(ys_[0], '0%db' % n),
                       'result_bits': R.bin_image(res.codes[0], n) if isinstance(res.codes[0], int) else None}
-        ctx.judged((op, ('s' if x.signed else 'u') + sy, ykind, G.word_class(n), top, len(x.shape)), any(top), sample, elements=len(x.codes))
-        ctx.floor_hit((op, ykind.split('.')[0] if ykind != '-' else '-'))
+        arrk = (len(x.shape) > 0, bool(yb is not None and np.ndim(ya) > 0))
+        ctx.judged((op, ('s' if x.signed else 'u') + sy, ykind, route, G.word_class(n), top, arrk), any(top), sample, elements=len(exp))
+        ctx.floor_hit((op, ykind.split('.')[0] if ykind not in ('-', 'masks') else ykind))
+        if route == 'numpy':
+            ctx.floor_hit(('numpy', op))
+        if any(arrk):
+            ctx.floor_hit(('arrays', op, arrk))
+            if n in (63, 64, 65) and arrk[0]:
+                ctx.floor_hit(('wide-array', n, x.signed))
         for p in U.u2_frame_problems(ev, Fxp):
             ctx.violation('operand_changed', p[1], ev, extra=p[2])
     return [bit_judge]
 
 
 def floors(tier):
-    return [('not', '-')] + [(op, yk) for op in ('and', 'or', 'xor') for yk in ('Fxp', '+mask', '-mask')] + [('mismatch',)]
+    return [('not', '-')] + [(op, yk) for op in ('and', 'or', 'xor') for yk in ('Fxp', '+mask', '-mask', 'masks')] + [('mismatch',)] + \
+           [('numpy', op) for op in ('and', 'or', 'xor', 'not')] + [('arrays', op, k) for op in ('and', 'or', 'xor') for k in ((True, True), (True, False), (False, True))] + [('arrays', 'not', (True, False))] + \
+           [('wide-array', w_, sg) for w_ in (63, 64, 65) for sg in (True, False)]
 
 
 # ------------------------------------------------------------------------------------------ workload
@@ -193,8 +240,24 @@ def run_case(case, ctx):
                     xi = Fxp(a, sx, w, nf, raw=True)
                     _try(lambda: op_(xi, b if b >= 0 else b))
             laws(ctx, x, Fxp(loy if a % 2 else hiy, sy, w, nfy, raw=True))
-        # arrays: ~ only
-        _try(lambda: ~Fxp(np.arange(lox, hix + 1), sx, w, nf, raw=True))
+        # arrays: every code of x against an array of y codes / masks (element-wise, broadcast), a scalar against an array
+        xarr = Fxp(np.arange(lox, hix + 1), sx, w, nf, raw=True)
+        _try(lambda: ~xarr)
+        ycodes = [(loy + (j * 5) % (hiy - loy + 1)) for j in range(hix - lox + 1)]
+        yarr = Fxp(np.array(ycodes), sy, w, nfy, raw=True)
+        for f_ in (lambda u, v: u & v, lambda u, v: u | v, lambda u, v: u ^ v):
+            _try(lambda: f_(xarr, yarr))
+            _try(lambda: f_(xarr, Fxp(hiy, sy, w, nfy, raw=True)))
+            _try(lambda: f_(Fxp(lox, sx, w, nf, raw=True), yarr))
+            _try(lambda: f_(xarr, ycodes))
+            _try(lambda: f_(xarr, np.array(ycodes)))
+            _try(lambda: f_(np.array(ycodes), xarr))
+            _try(lambda: f_(np.int64(ycodes[-1]), xarr))
+            _try(lambda: f_(np.int8(-1), Fxp(hix, sx, w, nf, raw=True)))
+        _try(lambda: np.bitwise_and(xarr, yarr))
+        _try(lambda: np.bitwise_or(xarr, 1))
+        _try(lambda: np.bitwise_xor(Fxp(lox, sx, w, nf, raw=True), Fxp(hiy, sy, w, nfy, raw=True)))
+        _try(lambda: np.invert(xarr))
         # mismatched word lengths are rejected
         x = Fxp(hix, sx, w, nf, raw=True)
         for wz in (w + 1, w - 1, w + 7):
@@ -253,6 +316,29 @@ def run_case(case, ctx):
                 _try(lambda: xx & y)
                 _try(lambda: xx | y)
                 _try(lambda: xx ^ mk)
+    # arrays at these widths (also the rows / elements of arrays), array right operands, NumPy masks on the left, the NumPy functions
+    if i % 2 == 0 or w in (63, 64, 65):
+        xa_ = _try(lambda: Fxp([a, max(lox, min(hix, code(lox, hix))), lox if i % 4 else hix], sx, w, nf, raw=True))
+        ya_ = _try(lambda: Fxp([b, loy, hiy], sy, w, 0, raw=True))
+        if xa_ is not None and ya_ is not None:
+            _try(lambda: ~xa_)
+            _try(lambda: xa_ & ya_)
+            _try(lambda: xa_ | ya_)
+            _try(lambda: xa_ ^ ya_)
+            _try(lambda: xa_ & mk)
+            _try(lambda: mk | xa_)
+            _try(lambda: xa_ ^ [mk, 1, -1])
+            _try(lambda: x & ya_)
+            _try(lambda: ~xa_[1])
+            _try(lambda: xa_[2] | ya_[0])
+            _try(lambda: np.bitwise_and(xa_, ya_))
+            _try(lambda: np.bitwise_or(x, y))
+            _try(lambda: np.bitwise_xor(xa_, 5))
+            _try(lambda: np.invert(xa_))
+        small = np.int64(mk % (1 << 62)) * (1 if mk >= 0 else -1)
+        _try(lambda: small & x)
+        _try(lambda: small | x)
+        _try(lambda: small ^ x)
     laws(ctx, x, y)
     z = Fxp(1, sy, w + rng.choice([-1, 1]), 0, raw=True)
     _try(lambda: x & z)
